@@ -8,6 +8,9 @@ package tls
 // connection is forced equal and is reported.
 
 func zzTwoHellos(p zzParrot) (a, b zzRefHello, ok bool) {
+	// extension shuffling is irrelevant to freshness: identity permutation on both
+	zzNoShuffle = true
+	defer func() { zzNoShuffle = false }()
 	cfg1 := zzConfig("example.com")
 	cfg1.OmitEmptyPsk = true
 	u1, _, err1 := zzBuild(p.id, cfg1)
@@ -31,7 +34,7 @@ func zzDiffer(x, y []byte) bool {
 }
 
 //verif:harness C18 fresh_per_connection unwind=4000 instrs=900000000 paths=20000 wall=900
-//verif:stub (*math/rand.Rand).Shuffle zzStubShuffle
+//verif:stub (*math/rand.Rand).Shuffle zzStubShuffleIdentity
 //verif:expect end
 //verif:doc Two connections of the same parrot (every predefined parrot; all randomness symbolic, each connection drawing its own): it is possible for them to differ in the client random, in the session id, and in the key bytes of every non-GREASE key share - i.e. none of these is cached, constant or copied from another connection.
 func zzC18FreshPerConnection() {
@@ -62,7 +65,7 @@ func zzC18FreshPerConnection() {
 }
 
 //verif:harness C16 grease_ech_fresh_per_connection unwind=4000 instrs=900000000 paths=20000 wall=900
-//verif:stub (*math/rand.Rand).Shuffle zzStubShuffle
+//verif:stub (*math/rand.Rand).Shuffle zzStubShuffleIdentity
 //verif:expect end
 //verif:doc Two connections of the same parrot carrying a GREASE ECH extension: it is possible for them to differ in the config id, in the encapsulated key and in the payload (each is fresh for each new connection).
 func zzC16GreaseECHFreshPerConnection() {
@@ -81,7 +84,7 @@ func zzC16GreaseECHFreshPerConnection() {
 }
 
 //verif:harness C04 grease_varies_across_connections unwind=4000 instrs=900000000 paths=20000 wall=900
-//verif:stub (*math/rand.Rand).Shuffle zzStubShuffle
+//verif:stub (*math/rand.Rand).Shuffle zzStubShuffleIdentity
 //verif:expect end
 //verif:doc Two connections of the same parrot: wherever the first hello carries a GREASE cipher suite, GREASE group, GREASE extension code point or GREASE version, it is possible for the second hello's value at the same position to differ (GREASE values vary across connections; none is a constant).
 func zzC04GreaseVariesAcrossConnections() {
